@@ -284,23 +284,9 @@ def explore(
     tasks = [(modname, fname, fx, deadline, per_path_timeout, twin, max_samples if i % every == 0 else 0, stop_on_fail, max_paths)
              for i, fx in enumerate(shards)]
     t0 = time.time()
-    results = []
-    if len(tasks) == 1 or procs == 1:
-        for t in tasks:
-            results.append(_run_in_subprocess(t))
-    else:
-        _preload(modname)
-        tasks.sort(key=lambda t: -sum(v for v in t[2].values() if isinstance(v, int) and not isinstance(v, bool)))
-        ctx = mp.get_context("fork")
-        # one fresh (forked) process per shard: whatever the code under test remembers between calls (module-level
-        # caches, memoised results) must not leak from one shard's paths into another's
-        with ctx.Pool(min(procs, len(tasks)), maxtasksperchild=1) as pool:
-            it = pool.imap_unordered(_worker, tasks, chunksize=1)
-            for r in it:
-                results.append(r)
-                if r["fails"] and stop_on_fail:
-                    pool.terminate()
-                    break
+    _preload(modname)
+    tasks.sort(key=lambda t: -sum(v for v in t[2].values() if isinstance(v, int) and not isinstance(v, bool)))
+    results = _run_tasks(tasks, min(procs, len(tasks)), stop_on_fail)
     agg: Dict[str, Any] = {k: 0 for k in ("paths", "PASS", "SKIP", "TRUNC", "FAIL", "unknown", "ignored", "decisions", "solver_queries")}
     agg["solver_seconds"] = 0.0
     agg["fails"], agg["samples"], agg["errors"] = [], [], []
@@ -330,11 +316,82 @@ def _preload(modname):
     importlib.import_module(modname)
 
 
-def _run_in_subprocess(task):
-    _preload(task[0])
+def _child(conn, task):
+    try:
+        r = _worker(task)
+    except BaseException as e:  # noqa: BLE001
+        r = _crashed(task, "worker crashed: " + _short(repr(e), 2000))
+    try:
+        conn.send(r)
+    finally:
+        conn.close()
+        os._exit(0)  # no atexit handlers / finalizers of the parent's state in the forked child
+
+
+def _crashed(task, msg):
+    return {"fixed": task[2], "error": msg, "paths": 0, "PASS": 0, "SKIP": 0, "TRUNC": 0, "FAIL": 0, "unknown": 0, "ignored": 0, "decisions": 0,
+            "exhausted": False, "fails": [], "samples": [], "solver_queries": 0, "solver_seconds": 0.0, "wall": 0.0}
+
+
+def _run_tasks(tasks, procs, stop_on_fail):
+    """One fresh forked process per shard, at most `procs` at a time, every fork made by THIS (single) thread.
+
+    (multiprocessing.Pool forks replacement workers from a helper thread; with one task per worker that happens all the
+    time, and a child forked while another thread of the parent holds a lock can deadlock: seen once as a check that
+    never finished.)  Whatever the code under test remembers between calls (module-level caches, memoised results)
+    cannot leak from one shard's paths into another's."""
+    from multiprocessing import connection
+
     ctx = mp.get_context("fork")
-    with ctx.Pool(1, maxtasksperchild=1) as pool:
-        return pool.apply(_worker, (task,))
+    pending = list(tasks)
+    running = {}
+    results = []
+    try:
+        while pending or running:
+            while pending and len(running) < procs:
+                task = pending.pop(0)
+                parent_conn, child_conn = ctx.Pipe(duplex=False)
+                sys.stdout.flush()
+                sys.stderr.flush()
+                p = ctx.Process(target=_child, args=(child_conn, task), daemon=True)
+                p.start()
+                child_conn.close()
+                running[parent_conn] = (p, task)
+            ready = connection.wait(list(running), timeout=5.0)
+            now = time.time()
+            for c in list(running):
+                p, task = running[c]
+                r = None
+                alive = p.is_alive()  # (read BEFORE polling: a result sent just before the exit is then still seen)
+                if c in ready or c.poll(0):
+                    try:
+                        r = c.recv()
+                    except (EOFError, OSError):
+                        r = _crashed(task, "worker died without a result (exit code %r)" % (p.exitcode,))
+                elif not alive:
+                    r = _crashed(task, "worker died without a result (exit code %r)" % (p.exitcode,))
+                elif now > task[3] + 120 + 2 * task[4]:
+                    # far past the job's deadline plus a path's time-out: a stuck worker must not hang the check
+                    p.kill()
+                    r = _crashed(task, "worker stuck past its deadline: killed")
+                if r is None:
+                    continue
+                c.close()
+                p.join(timeout=10)
+                del running[c]
+                results.append(r)
+                if r["fails"] and stop_on_fail:
+                    pending = []
+                    for c2, (p2, _t2) in list(running.items()):
+                        p2.kill()
+                        c2.close()
+                        p2.join(timeout=10)
+                    running = {}
+                    break
+    finally:
+        for c2, (p2, _t2) in list(running.items()):
+            p2.kill()
+    return results
 
 
 def jsonable(x):
